@@ -111,7 +111,7 @@ class C03Engine(Engine):
     assumptions = ['damage that makes a file undecodable as UTF-8 is outside the property ("any text") and is '
                    'not generated', 'which message or line number is reported is not judged',
                    'BackendException after a successful compile is not a C03 matter']
-    expected_probes = ['surely_invalid_input', 'surely_invalid_undefined-name', 'surely_invalid_duplicate-definition', 'surely_valid_input', 'outcome_api', 'outcome_invalidspec', 'via_cli', 'via_stdin', 'lang_ref_snippet',
+    expected_probes = ['surely_invalid_input', 'surely_invalid_unresolvable-name', 'surely_invalid_duplicate-definition', 'surely_valid_input', 'outcome_api', 'outcome_invalidspec', 'via_cli', 'via_stdin', 'lang_ref_snippet',
                        'garbage_file', 'fault_fired']
 
     def prepare(self):
@@ -359,6 +359,16 @@ class C03Engine(Engine):
         res['trace'] = [{'source': src, 'mode': mode, 'faults': [list(a) for a in applied], 'confused': confused}]
         res['artefacts']['specs'] = {fn: txt for fn, txt in files}
 
+        sure_invalid = None
+        if src == 'model' and len(applied) == 1:
+            if not confused and applied[0][0] == 'illegal-char' and str(applied[0][1]).startswith('sure:'):
+                sure_invalid = ('illegal-character', 'a character that no token can contain was inserted '
+                                                     'outside strings and comments')
+            elif confused and confused.startswith('!'):
+                sure_invalid = ('unresolvable-name', 'a reference was replaced by a name that is defined nowhere, or by the alias itself '
+                                                  '(%s)' % confused[1:])
+            elif applied[0][0] == 'dup-def':
+                sure_invalid = ('duplicate-definition', 'a whole definition was written twice (%s)' % applied[0][1])
         # ---- execute ------------------------------------------------------------------------------
         old = signal.signal(signal.SIGALRM, _alarm)
         signal.alarm(30)
@@ -367,7 +377,10 @@ class C03Engine(Engine):
             if mode == 'direct':
                 outcome, detail = self._direct(files)
             else:
-                outcome, detail = self._cli(files, mode, read_sizes, t, res, ensure_nl=not applied)
+                # a definite verdict is only expected of files that each end with a newline (on stdin a
+                # missing one glues the next file's first line to a comment or a field)
+                outcome, detail = self._cli(files, mode, read_sizes, t, res,
+                                            ensure_nl=not applied or sure_invalid is not None)
         except Timeout:
             outcome, detail = 'timeout', 'did not finish within 30 s'
         finally:
@@ -375,16 +388,6 @@ class C03Engine(Engine):
             signal.signal(signal.SIGALRM, old)
         ev.append('outcome %s %s' % (outcome, detail if outcome not in ('api', 'invalidspec') else ''))
         res['steps'] += 1 + len(applied)
-        sure_invalid = None
-        if src == 'model' and len(applied) == 1:
-            if not confused and applied[0][0] == 'illegal-char' and str(applied[0][1]).startswith('sure:'):
-                sure_invalid = ('illegal-character', 'a character that no token can contain was inserted '
-                                                     'outside strings and comments')
-            elif confused and confused.startswith('!'):
-                sure_invalid = ('undefined-name', 'a reference was replaced by a name that is defined nowhere '
-                                                  '(%s)' % confused[1:])
-            elif applied[0][0] == 'dup-def':
-                sure_invalid = ('duplicate-definition', 'a whole definition was written twice (%s)' % applied[0][1])
         if sure_invalid:
             bump(res['probes'], 'surely_invalid_input')
             bump(res['probes'], 'surely_invalid_' + sure_invalid[0])
@@ -478,7 +481,9 @@ class C03Engine(Engine):
                 sizes = lambda: n  # noqa
                 argv = ['python_types', outdir, '--', '-p', 'pkg'] if tape.chance(50) else \
                     ['python_types', outdir, '-', '--', '-p', 'pkg']
-                nspecs = max(1, len(re.findall(r'(?m)^namespace\b', stdin.decode('utf-8', 'replace'))))
+                # the CLI reads stdin as text: CRLF and lone CR are line ends too
+                nspecs = max(1, len(re.findall(r'(?m)^namespace\b', stdin.decode('utf-8', 'replace')
+                                               .replace('\r\n', '\n').replace('\r', '\n'))))
                 paths = ['stdin.%d' % (i + 1) for i in range(nspecs)]
             else:
                 argv = ['python_types', outdir] + paths + ['--', '-p', 'pkg']
